@@ -352,3 +352,19 @@ pub fn u32_intt(v: &[i32]) -> Vec<u32> {
 pub fn u32_ntt_mul(a: &[i32], b: &[i32]) -> Vec<u32> {
     from_u32f(&to_u32f(a).fft().hadamard_mul(&to_u32f(b).fft()).ifft())
 }
+
+// ---------------------------------------------------------------------------
+// key generation: number of candidate (f, g) pairs drawn by ntru_gen in this thread
+
+thread_local! {
+    static KEYGEN_CANDIDATES: Cell<u64> = Cell::new(0);
+}
+
+pub(crate) fn count_keygen_candidate() {
+    KEYGEN_CANDIDATES.with(|c| c.set(c.get() + 1));
+}
+
+/// Number of candidates drawn since the last call (per thread), then reset.
+pub fn take_keygen_candidates() -> u64 {
+    KEYGEN_CANDIDATES.with(|c| c.replace(0))
+}
